@@ -96,4 +96,15 @@ theorem modify_keeps_reprs {m : PMap w V} (h : m.TreeWF) (q : Pfx w) (f : V → 
 theorem view_set_keeps_node_prefix (t : Tree w V) (x : V) : (t.withValue (some x)).pfx? = t.pfx? := by
   cases t <;> rfl
 
+
+/-- the only entries carrying a prefix the user did not pass: `set(x)` through a mutable view on a
+node stores `(that node's existing prefix, x)` — for a value-less branching node the masked longest
+common prefix computed at its creation — and leaves every other entry's representation alone -/
+theorem view_set_repr {m : PMap w V} (h : m.TreeWF) {v : View w} (hg : View.Good m.root v) (x : V)
+    {np : Pfx w} (hv : v.virt = none) (hp : (v.node m.root).pfx? = some np) (e : Pfx w × V) :
+    e ∈ (m.viewSet v x).1.entries ↔ (e ∈ m.entries ∧ e.1.net ≠ np.net) ∨ e = (np, x) := by
+  have := PMap.viewSet_mem h hg x e
+  rw [hv, hp] at this
+  exact this
+
 end PT.C18
